@@ -52,7 +52,8 @@ BORROW = {
     # the containment of two simple shapes answers through an axis-aligned shortcut (disjoint boxes) or through the
     # general branch, depending on how the drawing is turned: the two must agree (rows with / without box overlap)
     "C12": ALGEBRA + [("C03", "r03_1")],
-    "C17": [("C13", "r13_4"), ("C18", "r18_13")],
+    # every constructor ends in the segments setter, which degree-reduces each segment (BezierCurve.clean)
+    "C17": [("C13", "r13_4"), ("C18", "r18_13"), ("C15", "r15_2")],
     "C18": ALGEBRA,
     # exact crossing parameters come from the exact line solver; they become exact vertices only if the split addresses
     # the segment they were computed on and cuts it at them
